@@ -304,13 +304,22 @@ class Program:
         stands for the single expression that variable is bound to."""
         seen = 0
         while isinstance(expr, ast.Name) and isinstance(ci.parent, FuncInfo) and seen < 4:
-            binds = [st for st in ast.walk(ci.parent.node) if isinstance(st, ast.Assign) and len(st.targets) == 1
-                     and isinstance(st.targets[0], ast.Name) and st.targets[0].id == expr.id]
-            other = [n for n in ast.walk(ci.parent.node) if isinstance(n, ast.Name) and n.id == expr.id
-                     and isinstance(n.ctx, ast.Store) and not any(n is st.targets[0] for st in binds)]
-            if len(binds) != 1 or other or expr.id in ci.parent.params:
+            found = None
+            scope = ci.parent
+            while isinstance(scope, FuncInfo):
+                binds = [st for st in ast.walk(scope.node) if isinstance(st, ast.Assign) and len(st.targets) == 1
+                         and isinstance(st.targets[0], ast.Name) and st.targets[0].id == expr.id]
+                other = [n for n in ast.walk(scope.node) if isinstance(n, ast.Name) and n.id == expr.id
+                         and isinstance(n.ctx, ast.Store) and not any(n is st.targets[0] for st in binds)]
+                if expr.id in scope.params or other or len(binds) > 1:
+                    break
+                if len(binds) == 1:
+                    found = binds[0].value
+                    break
+                scope = scope.parent          # not bound here: a variable of the enclosing function
+            if found is None:
                 break
-            expr = binds[0].value
+            expr = found
             seen += 1
         return expr
 
